@@ -113,7 +113,7 @@ def symbol (name : Bytes) (id : Bytes) (e : EntA) : Option FV :=
   else none
 
 def knownSymbols : Q → Bool
-  | .cmp (.mk s _ _) => (symbol s [] ⟨none, none, none, none⟩).isSome
+  | .cmp (.mk s _ _) => (symbol s [] { owner := none, boss := none, dep := none }).isSome
   | .or a b => knownSymbols a && knownSymbols b
   | .and a b => knownSymbols a && knownSymbols b
 
